@@ -60,6 +60,7 @@ class Check:
         self.errors = []
         self.samples = []
         self.canaries = []           # (name, refuted: bool)
+        self.notes = []              # NOTE lines (never affect the verdict)
         self.canaries_skipped = []   # canaries whose source pattern no longer occurs in the tree (not an error: the code was edited)
         self.refused = []
         self.known = load_known(pid)
@@ -74,7 +75,7 @@ class Check:
                 text = str(unit_out[1] if unit_out[0] != "ok" else unit_out[1].get("error", ""))
             except Exception:
                 text = ""
-        if "canary:" in text and ("not found in" in text or "closure variables" in text):
+        if ("canary:" in text and ("not found in" in text or "closure variables" in text)) or text.rstrip().endswith(" not found") or ": not a function" in text:
             self.canaries_skipped.append(name)
             return
         self.canaries.append((name, refuted))
@@ -177,6 +178,7 @@ class Check:
             "canaries_refuted": sum(1 for c in self.canaries if c[1]),
             "canaries": [{"name": c[0], "refuted": c[1]} for c in self.canaries],
             "canaries_skipped_pattern_absent": self.canaries_skipped,
+            "notes": self.notes,
             "known_findings": [{"id": i, "what": w} for i, w in self.known_hit],
             "undecided": self.undecided[:50],
             "refused": self.refused[:50],
@@ -208,6 +210,8 @@ class Check:
             print(f"UNDECIDED property={self.pid} obligation={u}")
         for e in self.errors[:20]:
             print(f"CHECKER-ERROR property={self.pid} {e}")
+        for nline in self.notes:
+            print(f"NOTE property={self.pid} {nline}")
         for c in self.canaries_skipped:
             print(f"NOTE property={self.pid} canary not applicable (its source pattern is absent from the current tree): {c}")
         bad_canaries = [c[0] for c in self.canaries if not c[1]]
